@@ -50,6 +50,11 @@ def _isinstance_one(interp, v, t):
         if isinstance(v, Sentinel):
             return v.attrs.get("__class__") == t.name
         return False
+    if isinstance(t, Opaque) and "classname" in t.attrs:
+        # a class object of an external library modelled as an opaque value (e.g. numpy.ndarray): the contract lists the classes of `v`
+        if isinstance(v, Opaque):
+            return t.attrs["classname"] in v.attrs.get("isinstance", ())
+        return False
     if isinstance(t, ExcClass):
         return isinstance(v, SExc) and v.cls.is_sub(t)
     if isinstance(t, ModuleRef):
